@@ -31,7 +31,7 @@ TECHNIQUE = ("runtime monitoring: listener / wire / Deferred recorders around th
              "fault points (one injected failure per execution, every command line of the dialogue as a disconnect point)")
 LEVEL_TEXT = ("Held on the executions observed: every configuration cell (ephemeral/filesystem x auth x version x "
               "key x single-hop x directory kind) built through 7 construction routes, each run fault-free (four event "
-              "schedules, two of them with another service's HS_DESC events inside the creation window) and once per fault point (configuration unavailable, bind refused, creating command rejected, all "
+              "schedules, two of them with another service's HS_DESC events inside the creation window, plus listen-again histories on the same endpoint object) and once per fault point (configuration unavailable, bind refused, creating command rejected, all "
               "uploads failed, Tor hanging up instead of / right after answering the k-th command line for every k, loss "
               "before listen and between the descriptor events), plus the invalid option combinations the constructor and "
               "the endpoint-string parser declare. Enumeration of the stated cells and fault points with one fault per run, "
@@ -89,7 +89,12 @@ ASSUMPTIONS = [
     "parser object that plugin file creates (txtorcon.TCPHiddenServiceEndpointParser()); the string parsing itself is Twisted's",
     "routes NOT covered: the first global_tor() call and private_tor() launch a Tor process (txtorcon.launch needs a tor binary); "
     "'onion:' strings without controlPort are driven only against an already existing global Tor (seeded through get_global_tor_instance(_tor_launcher=...))",
-    "a second listen() on the same endpoint object is outside the quantifier; not generated",
+    "histories on ONE endpoint object (fault-free: listen, stop the port, listen again; listen twice without stopping; after a failed first "
+    "listen() - creating command rejected / all uploads failed / bind refused - listen again with the fault gone): every successful listen() "
+    "must have an open loopback listener behind it, on the port Tor forwards the public port to at that moment (Tor's own record of the "
+    "service), may only be reported while Tor really has the service and after an UPLOADED of it was delivered at some time, and after "
+    "stopping the ports / after a failed second listen() nothing may be open; for 'twice without stopping' one public port cannot be "
+    "forwarded to two listeners, so the mapping is counted, not judged there; a second listen() that fails cleanly is always accepted",
 ]
 TRUSTED_BASE = ["vf.fakereactor.FakeReactor (tracked listening ports, harness-resolved connects)",
                 "vf.faketor.oniontor.OnionTor (reference Tor, self-tested)", "vf.refs.addonion, vf.refs.kvline (decoders, self-tested)",
@@ -117,7 +122,8 @@ FLOORS = {
     "quick": {"evaluations": 1400, "listen_calls": 1400, "listeners_checked_loopback": 1200, "mappings_compared": 800,
               "not_fired_checks": 4500, "not_fired_nor_failed_on_foreign_events_checks": 500, "foreign_window_runs": 120, "gethost_compared": 180, "stop_checked": 180, "stops_after_restart_checked": 90, "leak_checks_after_failure": 1200,
               "failure_errors_compared": 1000, "refusals_before_start_checked": 10, "reactor_watched_for_starts_before_refusal": 14, "config_bootstrap_failures_compared": 150,
-              "preconfigured_directory_runs": 15, "fault:reject-line": 120, "route:ctor-raw": 100, "fault:close-on-line": 300,
+              "preconfigured_directory_runs": 15, "relisten_runs": 300, "relisten_successes_checked": 150,
+              "relisten_open_listener_checks": 100, "relisten_failures_checked": 15, "fault:reject-line": 120, "route:ctor-raw": 100, "fault:close-on-line": 300,
               "fault:close-after-reply": 300, "fault:reject": 120, "fault:uploads-failed": 180, "fault:bind": 90, "fault:config": 40,
               "route:ctor": 200, "route:tor": 140, "route:str-system": 80, "route:str-global": 45,
               "reach:txtorcon.endpoints:TCPHiddenServiceEndpoint.listen": 1400,
@@ -127,7 +133,8 @@ FLOORS = {
     "thorough": {"evaluations": 4500, "listen_calls": 4500, "listeners_checked_loopback": 3500, "mappings_compared": 2500,
                  "not_fired_checks": 14000, "not_fired_nor_failed_on_foreign_events_checks": 900, "foreign_window_runs": 200, "gethost_compared": 500, "stop_checked": 500, "stops_after_restart_checked": 250, "leak_checks_after_failure": 3500,
                  "failure_errors_compared": 3000, "refusals_before_start_checked": 10, "reactor_watched_for_starts_before_refusal": 14, "config_bootstrap_failures_compared": 400,
-                 "preconfigured_directory_runs": 15, "fault:reject-line": 400, "route:ctor-raw": 400, "fault:close-on-line": 1200,
+                 "preconfigured_directory_runs": 15, "relisten_runs": 400, "relisten_successes_checked": 200,
+                 "relisten_open_listener_checks": 130, "relisten_failures_checked": 20, "fault:reject-line": 400, "route:ctor-raw": 400, "fault:close-on-line": 1200,
                  "fault:close-after-reply": 1200, "fault:reject": 300, "fault:uploads-failed": 450, "fault:bind": 250, "fault:config": 100,
                  "random_cases": 4000,
                  "route:ctor": 400, "route:tor": 300, "route:str-system": 300, "route:str-global": 100,
@@ -247,6 +254,10 @@ def base_faults(route, cell):
     if route not in LAZY:
         f.append(["lose", "before-listen"])
     f.append(["lose", "after-upload"])
+    # histories on ONE endpoint object: listen() again after the returned port was stopped / without stopping it /
+    # after a failed listen() (the injected fault hits the first listen() only)
+    f += [["none", "relisten", "after-stop"], ["none", "relisten", "without-stop"],
+          ["reject", word, 512 if cell["eph"] else 513, "relisten"], ["uploads-failed", 1, "relisten"], ["bind", "relisten"]]
     return f
 
 
@@ -381,6 +392,10 @@ class Obs(object):
         self.config_bootstrap = None      # ("ok"|"err", value, listen already fired?) of a TorConfig the harness created
         self.spawned = 0
         self.rejected_line = None
+        self.uploaded_for = {}            # service id -> own UPLOADED events sent so far
+        self.relisten = None              # observations of the second listen() on the same endpoint object
+        self.first_listen_calls = None
+        self.first_create_seen = None
         self.started_before_refusal = None
 
 
@@ -451,6 +466,7 @@ class World(object):
         self.tmpfiles = []
         self.real_dir = None
         self.replies0 = 0
+        self.replies1 = None          # end of the first listen()'s dialogue (set when a second listen() starts)
         self._unstub = None
 
     # -- monitors ---------------------------------------------------------------
@@ -952,6 +968,9 @@ def execute(case):
             w.step("listen-raised")
             return w
         o = obs.outcome = w.aud.watch(d, "listen")
+        relisten_mode = None
+        if "relisten" in w.fault:
+            relisten_mode = w.fault[2] if w.fault[0] == "none" else "after-failed-listen"
 
         def snap(res):
             obs.at_fire = {"lost": bool(w.link is not None and w.link.lost),
@@ -1046,6 +1065,7 @@ def execute(case):
                 for i in range(n):
                     if w.tor.hs_desc("UPLOADED", addr, i):
                         obs.own_uploaded_sent += 1
+                        obs.uploaded_for[addr] = obs.uploaded_for.get(addr, 0) + 1
                     w.step("uploaded:%d" % i)
         # ---- success: the port object
         if o.fired == 1 and o.ok:
@@ -1059,6 +1079,10 @@ def execute(case):
             hist = PORT_HISTORIES[-1]
             if "history" in w.cell:
                 hist = PORT_HISTORIES[(int(w.cell["history"]) + ROUTES.index(w.route)) % len(PORT_HISTORIES)]
+            if relisten_mode == "after-stop":
+                hist = ("stop",)
+            elif relisten_mode == "without-stop":
+                hist = ()
             obs.port_history = []
             for k, op in enumerate(hist):
                 before = w.open_ports()
@@ -1077,12 +1101,15 @@ def execute(case):
                     w.step("stopped" if k == 0 else "port:%s#%d" % (op, k))
                 obs.port_history.append({"op": op, "before": before, "after": w.open_ports(), "raised": repr(exc) if exc else None,
                                          "returned_deferred_fired": fired})
-            obs.open_after_stop = obs.port_history[0]["after"]
+            obs.open_after_stop = obs.port_history[0]["after"] if obs.port_history else None
         # ---- quiescence
         w.step("quiesce-0")
         w.reactor.advance(3600)
         w.step("quiesce-1")
         obs.open_at_end = w.open_ports()
+        if relisten_mode is not None and o.fired:
+            # a first listen() that failed on its own (e.g. Tor refuses the version) makes it the after-a-failure history
+            relisten(w, ep, o, relisten_mode if o.ok else "after-failed-listen")
         return w
     finally:
         w.logs.stop()
@@ -1107,13 +1134,89 @@ def execute(case):
         EP._global_tor = None
 
 
+def tor_mapping(w, sid):
+    """[(public, (host, port))] Tor currently forwards for service `sid`, None if Tor has no such service"""
+    rec = w.tor.onions.get(sid)
+    if rec is None:
+        for x in w.tor.fs_services:
+            if x.service_id == sid:
+                rec = x
+    if rec is None:
+        return None
+    return [(pp, _norm_target(pp, t)) for (pp, t) in rec.ports]
+
+
+def relisten(w, ep, o1, mode):
+    """listen() once more on the same endpoint object; faults of the first attempt are over"""
+    from twisted.internet import protocol
+    obs = w.obs
+    r = obs.relisten = {"mode": mode, "first_ok": bool(o1.ok), "raised": None, "fired": 0, "ok": None, "error": None, "at_fire": None,
+                        "open_before": w.open_ports(), "open_after_listen": None, "mapping": None, "open_after_stop": None,
+                        "open_at_end": None, "stop_raised": None, "new_listen_calls": None, "lines": None}
+    del w.reactor._refuse[:]            # the injected bind refusal concerned the first attempt
+    # what belongs to the first listen() ends here
+    w.replies1 = len(w.tor.replies)
+    obs.first_listen_calls = len(obs.listen_calls)
+    obs.first_create_seen = len(obs.create_seen)
+    if w.link is None or w.link.lost:
+        r["skipped"] = "control connection gone"
+        return
+    n_calls, n_lines = len(obs.listen_calls), len(w.tor.lines)
+    try:
+        d2 = ep.listen(protocol.Factory())
+    except Exception as e:      # noqa
+        r["raised"] = repr(e)
+        return
+    o2 = w.aud.watch(d2, "listen-again")
+
+    def snap(res):
+        svc = w.service()
+        sid = svc[0] if svc else None
+        r["at_fire"] = {"service_in_tor": bool(sid is not None and tor_mapping(w, sid) is not None),
+                        "own_uploaded_sent": obs.uploaded_for.get(sid, 0) if sid else 0}
+        return res
+    d2.addBoth(snap)
+    w.step("relisten:called")
+    svc = w.service()
+    if svc is not None and not o2.fired:
+        addr = svc[0]
+        w.tor.hs_desc("UPLOAD", addr, 0, descid=AO.descriptor_id(addr, 0))
+        w.step("relisten:upload")
+        if w.tor.hs_desc("UPLOADED", addr, 0):
+            obs.uploaded_for[addr] = obs.uploaded_for.get(addr, 0) + 1
+        w.step("relisten:uploaded")
+    r["fired"], r["ok"] = o2.fired, o2.ok
+    r["new_listen_calls"] = [(c["interface"], c["port"], c["ok"]) for c in obs.listen_calls[n_calls:]]
+    r["lines"] = w.tor.lines[n_lines:][-6:]
+    ports = []
+    if o2.fired and o2.ok:
+        r["open_after_listen"] = w.open_ports()
+        svc = w.service()
+        r["mapping"] = tor_mapping(w, svc[0]) if svc else None
+        ports.append(o2.value)
+    elif o2.fired:
+        r["error"] = "%s: %s" % (type(o2.value).__name__, o2.value)
+    if mode == "without-stop" and o1.ok:
+        ports.append(o1.value)
+    for pt in ports:
+        try:
+            pt.stopListening()
+        except Exception as e:      # noqa
+            r["stop_raised"] = repr(e)
+        w.step("relisten:stopped")
+    r["open_after_stop"] = w.open_ports()
+    w.reactor.advance(3600)
+    w.step("relisten:quiesce")
+    r["open_at_end"] = w.open_ports()
+
+
 def _state_lines(lines):
     return [l for l in lines if l.partition(" ")[0].upper() in ("ADD_ONION", "SETCONF", "RESETCONF", "DEL_ONION")]
 
 
 def _create_acked(w):
     """did Tor answer 250 to a creating command of this endpoint (and was the answer handed to the link)?"""
-    for (line, code, parts) in w.tor.replies[w.replies0:]:
+    for (line, code, parts) in w.tor.replies[w.replies0:w.replies1]:
         word = line.partition(" ")[0].upper()
         if code == 250 and (word == "ADD_ONION" or (word in ("SETCONF", "RESETCONF") and "hiddenservicedir" in line.lower())):
             return True
@@ -1123,7 +1226,7 @@ def _create_acked(w):
 def _create_reply(w):
     """status code Tor gave to the (last) creating command, None if it never answered one"""
     code = None
-    for (line, c, parts) in w.tor.replies[w.replies0:]:
+    for (line, c, parts) in w.tor.replies[w.replies0:w.replies1]:
         word = line.partition(" ")[0].upper()
         if word == "ADD_ONION" or (word in ("SETCONF", "RESETCONF") and "hiddenservicedir" in line.lower()):
             code = c
@@ -1151,7 +1254,7 @@ def failing_step(w):
     if f[0] == "uploads-failed":
         return "uploads-failed"
     if f[0] in ("close-on-line", "close-after-reply", "lose"):
-        if not obs.listen_calls:
+        if not obs.listen_calls[:obs.first_listen_calls]:
             return "disconnect-before-bind"
         if acked:
             return "disconnect-during-descriptor-wait"
@@ -1162,7 +1265,7 @@ def failing_step(w):
         return "command-rejected-after-creation" if acked else "command-rejected-before-creation"
     if w.cell.get("pre"):
         return "directory-already-configured"
-    if not obs.create_seen:
+    if not obs.create_seen[:obs.first_create_seen]:
         return "create-refused-by-client"
     return "other"
 
@@ -1239,7 +1342,76 @@ def error_matches(w, exc):
 
 
 def judge(w, rec, case):
+    bad, nontrivial = judge_first(w, rec, case)
+    if w.obs.relisten is not None:
+        bad = bad + judge_relisten(w, rec, case)
+    return bad, nontrivial
+
+
+def judge_relisten(w, rec, case):
+    """the second listen() on the same endpoint object: every successful listen() has an open loopback listener on the port Tor
+    forwards to, is not reported before the service exists and a descriptor of it was uploaded; afterwards nothing stays open"""
+    obs, cell, r = w.obs, w.cell, w.obs.relisten
+    kind = kind_of(cell)
+    cls = "%s+listen-again-%s" % (kind, r["mode"])
+    bad = []
+
+    def V(clause, detail):
+        bad.append(clause)
+        d = dict(detail)
+        d["second_listen"] = {k: r[k] for k in ("mode", "fired", "ok", "error", "new_listen_calls", "lines", "open_after_listen", "mapping", "at_fire")}
+        rec.violation(clause, cls, d, case)
+
+    if r.get("skipped"):
+        rec.count("relisten_skipped")
+        return bad
+    rec.count("relisten_runs")
+    rec.count("relisten:" + r["mode"])
+    if r["raised"]:
+        V("listen-raised-synchronously", {"exc": r["raised"]})
+        return bad
+    if not r["fired"]:
+        V("listen-pending-at-quiescence", {"open": r["open_at_end"]})
+        return bad
+    if r["fired"] > 1:
+        V("listen-fired-%d-times" % r["fired"], {})
+    if r["ok"]:
+        rec.count("relisten_successes_checked")
+        af = r["at_fire"] or {}
+        if not af.get("service_in_tor"):
+            V("fired-before-service-exists", {})
+        elif not af.get("own_uploaded_sent"):
+            V("fired-before-descriptor-wait-over", {})
+        opened = r["open_after_listen"] or []
+        if any(not is_loopback(i) for (i, p) in opened):
+            V("non-loopback-listener", {"open": opened})
+        if r["mode"] != "without-stop":
+            rec.count("relisten_open_listener_checks")
+            if not opened:
+                V("listen-resolved-without-open-listener", {"open": opened})
+            elif r["mapping"] is not None:
+                rec.count("relisten_mappings_compared")
+                want = [(cell["public_port"], tuple(x)) for x in opened]
+                got = [(pp, tuple(t)) for (pp, t) in r["mapping"]]
+                if len(got) != 1 or got[0] not in want:
+                    V("port-mapping-mismatch", {"tor_forwards": got, "open_listeners": opened})
+        else:
+            rec.count("relisten_without_stop_mapping_not_judged")
+        if r["stop_raised"]:
+            V("stoplistening-raised", {"exc": r["stop_raised"]})
+        if r["open_after_stop"]:
+            V("stoplistening-left-listener-open", {"open": r["open_after_stop"]})
+    else:
+        rec.count("relisten_failures_checked")
+        if r["open_at_end"]:
+            V("listener-left-open-after-failure", {"open": r["open_at_end"], "error": r["error"]})
+    return bad
+
+
+def judge_first(w, rec, case):
     obs, cell, f = w.obs, w.cell, w.fault
+    listen_calls = obs.listen_calls[:obs.first_listen_calls]
+    create_seen = obs.create_seen[:obs.first_create_seen]
     kind = kind_of(cell)
     bad = []
 
@@ -1261,14 +1433,14 @@ def judge(w, rec, case):
         rec.count("implicit_dirs_removed_by_shutdown_trigger" if obs.implicit_dir_removed else "implicit_dirs_left_after_shutdown")
 
     # ---- every listener: loopback only --------------------------------------------------------
-    for c in obs.listen_calls:
+    for c in listen_calls:
         rec.count("listen_calls_seen")
         rec.count("listeners_checked_loopback")
         if not is_loopback(c["interface"]):
             V("non-loopback-listener", kind, {"interface": c["interface"], "port": c["port"]})
             break
-    if len([c for c in obs.listen_calls if c["ok"]]) > 1:
-        V("more-than-one-listener", kind, {"calls": [(c["interface"], c["port"], c["ok"]) for c in obs.listen_calls]})
+    if len([c for c in listen_calls if c["ok"]]) > 1:
+        V("more-than-one-listener", kind, {"calls": [(c["interface"], c["port"], c["ok"]) for c in listen_calls]})
 
     # ---- invalid combinations -------------------------------------------------------------------
     if case.get("invalid"):
@@ -1276,7 +1448,7 @@ def judge(w, rec, case):
         cls = case["invalid"] + "+" + route
         o = obs.outcome
         refused = obs.construct_exc is not None or obs.listen_raised is not None or (o is not None and o.fired and not o.ok)
-        started = bool(obs.listen_calls) or bool(_state_lines(w.tor.lines[obs.lines0:]))
+        started = bool(listen_calls) or bool(_state_lines(w.tor.lines[obs.lines0:]))
         if obs.construct_exc is not None:
             rec.count("refused_by_constructor")
         elif refused:
@@ -1293,10 +1465,10 @@ def judge(w, rec, case):
         if launched:
             return bad, True
         if not refused:
-            V("invalid-combination-not-refused", cls, {"listen_calls": len(obs.listen_calls)})
+            V("invalid-combination-not-refused", cls, {"listen_calls": len(listen_calls)})
         elif started:
             V("invalid-combination-refused-after-start", cls,
-              {"listen_calls": [(c["interface"], c["port"], c["ok"]) for c in obs.listen_calls],
+              {"listen_calls": [(c["interface"], c["port"], c["ok"]) for c in listen_calls],
                "state_lines": _state_lines(w.tor.lines[obs.lines0:])})
         if obs.open_at_end:
             V("listener-left-open-after-failure", "invalid-combination+" + route, {"open": obs.open_at_end})
@@ -1312,8 +1484,8 @@ def judge(w, rec, case):
     rec.count("listen_calls")
 
     # ---- the mapping sent to Tor names the port that was bound -----------------------------------
-    bound = [c["lp"] for c in obs.listen_calls if c["ok"]]
-    for cs in ([] if cell.get("pre") else obs.create_seen):
+    bound = [c["lp"] for c in listen_calls if c["ok"]]
+    for cs in ([] if cell.get("pre") else create_seen):
         m = mapping_of(w, cs["line"])
         if m is None:
             rec.count("creating_command_undecodable")
@@ -1329,7 +1501,7 @@ def judge(w, rec, case):
     code = _create_reply(w)
     # cells the client itself may refuse while creating the service (after the bind): version 4, key of the other type
     may_refuse = cell.get("version") == 4 and cell.get("eph", True) or cell.get("key") == "wrong-type"
-    client_refusal = bool(may_refuse and not obs.create_seen and o.fired and not o.ok)
+    client_refusal = bool(may_refuse and not create_seen and o.fired and not o.ok)
     fault_injected = f[0] != "none"
     # a service for the same directory is already in the config: whatever listen() does, it may not leak or hang
     pre = bool(cell.get("pre"))
@@ -1391,7 +1563,7 @@ def judge(w, rec, case):
             V("gethost-port-mismatch", kind, {"got": hport, "public_port": cell["public_port"], "bound": [lp.port for lp in bound]})
         # ---- IListeningPort history: every stopListening() closes the local listener ------------------------------
         mapped = None
-        for cs in obs.create_seen:
+        for cs in create_seen:
             m = mapping_of(w, cs["line"])
             if m:
                 mapped = m[0][1]
